@@ -6,13 +6,24 @@ from mbh import plans
 
 ALL = ["C%02d" % i for i in range(1, 21)]
 TEXT = {
- "C01": "open replays exactly the accepted, not yet discarded messages (bag equality with the observer's own record of accepted adds; stored messages = accepted messages)",
- "C02": "every accepted add is sent exactly once, unmodified and with the binder's side, to exactly the connections that are subscribed by the protocol's definition",
- "C03": "claimed answers name the live nameplate's mailbox, it never changes while the nameplate lives, new incarnations get never-used ids, no sharing, (app,name) is a key",
- "C05": "per mailbox / nameplate incarnation at most two sides are ever subscribed, sent messages or told the id; refused third sides change no stored message; keep-access clause (known finding F6)",
- "C07": "claims end only by the side's own release, expiry, or deletion of the nameplate's mailbox; row exists iff held; release idempotent; no re-claim",
- "C08": "close completes with `closed`; while another side is open everything of the mailbox stays; the last close deletes exactly the mailbox and what hangs off it, nothing unrelated",
- "C17": "welcome first; ack first echoing id; well-formed frames; ping/pong; each listed protocol error = exactly one error frame, no stored change, connection usable; no internal failure (known finding F2 apart)",
+ "C01": "open replays exactly the accepted, not yet discarded messages (bag equality with the observer's own record of accepted adds; stored messages = accepted messages). Known finding F10 (non-string phase/body/id replayed as strings).",
+ "C02": "every accepted add is sent exactly once, unmodified and with the binder's side, to exactly the connections that are subscribed by the protocol's definition; message frames only on add/open",
+ "C03": "claimed answers name the live nameplate's mailbox, it never changes while the nameplate lives, new incarnations get never-used ids, no sharing, (app,name) is a key; plus C07.a as the premise 'for as long as the nameplate lives'",
+ "C04": "allocated names are free, of the shortest class that has a free value (real class bounds 1-9/10-99/100-999/longer), held by the allocating side in the durable state reached when the answer is sent; listing allowed and disallowed; a quick history with all 999 short names in use",
+ "C05": "per mailbox / nameplate incarnation at most two sides are ever subscribed, sent messages or told the id; refused third sides change no stored message; keep-access clause = known finding F6",
+ "C06": "single run: a command of one app leaves every other app's rows and usage records untouched; pairs (TracePair, MBPair regime iso): app B's frames, rows, usage records and allocate candidate sets are equal with and without the other apps' commands. Known finding F2.",
+ "C07": "claims end only by the side's own release, expiry, or deletion of the nameplate's mailbox; row exists iff held; release idempotent and answered released; no re-claim; unlisted after the last release",
+ "C08": "close completes with `closed` (an internal failure counts as not completed); while another side is open everything of the mailbox stays; the last close deletes exactly the mailbox and what hangs off it, nothing unrelated",
+ "C09": "every frame is emitted with nothing uncommitted (measured: no open transaction, or the server's view equals an independent reader's); what a frame acknowledges is in the durable state reached when it was sent; durable changes are detected at every SQL statement, not only at commit() calls",
+ "C10": "every durable state is well formed; restart succeeds; after a crash nothing fails internally and the store empties once nobody returns (incl. a kill after EVERY durable change of chosen commands); pairs (regime resume): crash inside claim/release/open/close + restart + re-send = no crash. Known finding F2.",
+ "C11": "pairs (TracePair regime restart; MBPair regime restart): server rebuilt from the files vs. server object kept, same continuation (every side and a newcomer probe what exists, sweeps at the same instants): equal frames, channel rows and usage records",
+ "C12": "a sweep leaves untouched every channel with a claim/allocate/open/add within EXP or a subscriber; away grace (a subscriber seen less than EXP-PERIOD ago); nothing but sweeps/closes/releases removes rows; real TimerService under virtual time",
+ "C13": "a completed sweep removes every idle channel completely; a sweep at every period while the service is up, also after a failed one (injected OperationalError on the first database access); quiescence: everybody gone for EXP+PERIOD => all five tables empty",
+ "C14": "pairs (TracePair regime resend; MBPair regime resend): an acknowledged claim/release/open/close duplicated on a fresh connection of the same side is answered like the original and changes neither later frames nor channel rows. Known finding F6.",
+ "C15": "per retirement exactly one usage record with started/waiting/total derived from the observer's own record of arrivals and the documented precedence; status row = number of subscribed connections; plus the whole finite domain of the real summary functions (Classify.tla)",
+ "C16": "every new usage timestamp is a multiple of the blur interval and within one interval below the true time, on every path (release, close, mailbox deletion, expiry, bind), for intervals in minutes, in seconds not dividing a minute, and with 1/100 s arrival times; plus Classify.tla",
+ "C17": "welcome first with the configured notices; ack first echoing id; well-formed frames; ping/pong; each listed protocol error = exactly one error frame, no stored change; the connection stays usable afterwards (C17.g); no internal failure (known findings F2, F10 apart); awkward Unicode / empty strings for every identifier",
+ "C18": "list answers exactly the live nameplates or nothing when disallowed; pairs (TracePair regime config; MBPairCfg): same history under other listing/usage/blur options gives equal frames (names payload apart), channel rows and allocate candidate sets",
 }
 FILES = {
  "C19": "database files are created atomically and never clobbered: clauses C19.a-e of spec/DbFiles.tla",
@@ -53,8 +64,12 @@ def check(pid):
                  "(exhaustive to a stated depth; instances %s); the same clauses are evaluated by TLC "
                  "(spec/TraceCheck.tla) on executions of the real code recorded by the in-process harness: "
                  "behaviours generated by TLC -simulate replayed on the code, and random histories; every "
-                 "recorded step is also checked for conformance with the specification's Step. %s"
-                 % (plan["clauses"], [m[0] for m in plan["mc"]], TEXT.get(pid, ""))),
+                 "recorded step is also checked for conformance with the specification's Step. %s%s%s"
+                 % (plan["clauses"], [m[0] for m in plan["mc"]],
+                    (" Relational part: lock-step self-composition spec/MBPair*.tla model-checked by TLC, and pairs of real "
+                     "executions (regimes %s) compared by TLC (spec/TracePair.tla). " % [r[0] for r in plan["pairs"]]) if plan.get("pairs") else "",
+                    " Summary functions over their whole finite input domain: spec/Classify.tla. " if plan.get("classify") else "",
+                    TEXT.get(pid, ""))),
         "design_ref": "DESIGN.md section 5 (%s), sections 3-4" % pid},
       "level_note": ("Trusted: SQLite atomic commit / FK enforcement (A2), Twisted/autobahn framing below "
                      "onOpen/onMessage/onClose/sendMessage (A3), no 64-bit mailbox-id collisions (A1), TLC. "
@@ -63,7 +78,7 @@ def check(pid):
                      "to exploration (DRIFT)."),
       "technique": "TLA+ specification model-checked with TLC; spec->code replay of TLC behaviours and code->spec trace validation (conformance + property monitors) by TLC",
     }
-NA = {p: "check not built yet in this revision of the framework (planned with the same specification, see DESIGN.md section 5)" for p in ALL}
+NA = {p: "not claimed" for p in ALL}
 m = {
   "version": 1,
   "setup_cmd": "./setup.sh",
